@@ -73,9 +73,33 @@ fn case_new(cx: &mut Ctx, spec: &PktSpec) {
     check_new(cx, &line, spec, &r);
 }
 
+#[derive(Clone, Debug)]
+pub enum Tweak {
+    Mid(u16),
+    Tok(Vec<u8>),
+    Typ(u8),
+    ReqMid(u16),
+    ReqTok(Vec<u8>),
+}
+
 fn case_err(cx: &mut Ctx, spec: &PktSpec, code: Option<u8>, msg: &[u8], pre: &[(u16, Vec<u8>)]) {
-    // `pre`: options/payload the application already put on the reply
-    let pretok = pre.iter().map(|(n, v)| format!("{}:{}", n, hex(v))).collect::<Vec<_>>().join(",");
+    case_err_tweaked(cx, spec, code, msg, pre, &[])
+}
+
+fn case_err_tweaked(cx: &mut Ctx, spec: &PktSpec, code: Option<u8>, msg: &[u8], pre: &[(u16, Vec<u8>)], tweaks: &[Tweak]) {
+    // `pre`: options the application already put on the reply; `tweaks`: changes made to the
+    // reply / the request between from_packet and apply_from_error
+    let mut parts: Vec<String> = pre.iter().map(|(n, v)| format!("{}:{}", n, hex(v))).collect();
+    for t in tweaks {
+        parts.push(match t {
+            Tweak::Mid(m) => format!("mid={}", m),
+            Tweak::Tok(t) => format!("tok={}", hex(t)),
+            Tweak::Typ(t) => format!("typ={}", t),
+            Tweak::ReqMid(m) => format!("rmid={}", m),
+            Tweak::ReqTok(t) => format!("rtok={}", hex(t)),
+        });
+    }
+    let pretok = parts.join(",");
     let line = format!(
         "RESP err {} {} {} {}",
         code.map(|c| c.to_string()).unwrap_or("none".into()),
@@ -90,6 +114,21 @@ fn case_err(cx: &mut Ctx, spec: &PktSpec, code: Option<u8>, msg: &[u8], pre: &[(
         if let Some(resp) = req.response.as_mut() {
             for (n, v) in pre {
                 resp.message.add_option(coap_lite::CoapOption::from(*n), v.clone());
+            }
+            for t in tweaks {
+                match t {
+                    Tweak::Mid(m) => resp.message.header.message_id = *m,
+                    Tweak::Tok(t) => resp.message.set_token(t.clone()),
+                    Tweak::Typ(t) => resp.message.header.set_type(crate::tbl::mtype(*t as u64)),
+                    _ => {}
+                }
+            }
+        }
+        for t in tweaks {
+            match t {
+                Tweak::ReqMid(m) => req.message.header.message_id = *m,
+                Tweak::ReqTok(t) => req.message.set_token(t.clone()),
+                _ => {}
             }
         }
         let before = req.response.clone();
@@ -204,4 +243,25 @@ pub fn run(cx: &mut Ctx) {
         }
     }
     cx.exhaustive.push("apply_from_error over every code byte / no code x 4 message types x pre-set reply options".into());
+    // the reply / the request changed between from_packet and apply_from_error (separate response,
+    // re-used request object), and pre-set Content-Format values that are not decodable
+    let tweak_sets: Vec<Vec<Tweak>> = vec![
+        vec![Tweak::Mid(0x7777)],
+        vec![Tweak::Tok(vec![9, 9, 9])],
+        vec![Tweak::Typ(0), Tweak::Mid(4242)],
+        vec![Tweak::ReqMid(0x0101)],
+        vec![Tweak::ReqTok(vec![5])],
+        vec![Tweak::Mid(1), Tweak::Tok(vec![]), Tweak::ReqMid(2), Tweak::ReqTok(vec![1, 2, 3, 4, 5, 6, 7, 8])],
+    ];
+    let cf_pre: Vec<Vec<(u16, Vec<u8>)>> = vec![vec![], vec![(12, vec![0xfd, 0xe8])], vec![(12, vec![1, 2, 3])], vec![(12, vec![0xfd, 0xe8]), (12, vec![50])], vec![(12, vec![]), (12, vec![0xff, 0xff])]];
+    for typ in 0..2u8 {
+        for code in [Some(0x84u8), Some(0x45), Some(0xA0), None] {
+            for tw in &tweak_sets {
+                for pre in &cf_pre {
+                    let spec = PktSpec { vtt: 0x40 | typ << 4 | 2, code: CodeSpec::Byte(1), mid: 0x3333, tok: vec![0xaa, 0xbb], opts: vec![(11, b"r".to_vec())], payload: vec![] };
+                    case_err_tweaked(cx, &spec, code, b"oops", pre, tw);
+                }
+            }
+        }
+    }
 }
